@@ -348,6 +348,12 @@ func GenProgram(t *rapid.T, c GenCfg) Program {
 			op.F = rapid.SampledFrom([]float64{0.001, 0.1, 0.5, 0.9}).Draw(t, "ratio")
 		case "clock":
 			op.A = rapid.SampledFrom([]int{1, 1, 2, 5, 30}).Draw(t, "dclock")
+		case "stream", "backup", "dropprefix", "dropall", "xop":
+			// derived checks: generic operands, interpreted by the check's own op handler
+			op.A = rapid.IntRange(0, 1<<16).Draw(t, "xa")
+			op.B = rapid.IntRange(0, 1<<16).Draw(t, "xb")
+			op.Key = rapid.IntRange(0, nk-1).Draw(t, "xkey")
+			op.Ts = uint64(rapid.IntRange(0, 60).Draw(t, "xts"))
 		}
 		p.Ops = append(p.Ops, op)
 	}
